@@ -100,6 +100,23 @@ def special_models():
                                                         'docs': [Mx([(Sx('base'), inner), (Sx('first'), Mx([(Sx('inner'), inner)])),
                                                                      (Sx('second'), Mx([(Sx('inner'), inner)]))])]}],
                                        'root': ('cls', 'K')}))
+    # sharing INSIDE a shared collection, the inner places differently typed: dev: &dev [&data a/b, {path: *data}] / prod: *dev
+    vol = {'name': 'Vol', 'params': [('path', 'path')]}
+    pair = ('q', 'seq', [Sx('a/b'), Mx([(Sx('path'), Sx('a/b'))])])
+    out.append(('inner-sharing', {'classes': B + [vol, {'name': 'K', 'params': [('m', ('dict', 'str', ('list', ('union', ['str', ('cls', 'Vol')]))))],
+                                                        'docs': [Mx([(Sx('m'), Mx([(Sx('dev'), pair), (Sx('prod'), pair)]))])]}],
+                                  'root': ('cls', 'K')}))
+    es = {'name': 'Es', 'params': [('e', ('cls', 'E')), ('s', 'str'), ('w', ('cls', 'S'), None)]}
+    both = Mx([(Sx('e'), Sx('red')), (Sx('s'), Sx('red')), (Sx('w'), Sx('red'))])
+    out.append(('inner-sharing', {'classes': B + [es, {'name': 'K', 'params': [('m', ('dict', 'str', ('cls', 'Es'))), ('l', ('list', ('cls', 'Es')), None)],
+                                                       'docs': [Mx([(Sx('m'), Mx([(Sx('x'), both), (Sx('y'), both)]))]),
+                                                                Mx([(Sx('m'), Mx([(Sx('x'), both)])), (Sx('l'), ('q', 'seq', [both, both]))])]}],
+                                  'root': ('cls', 'K')}))
+    anyin = Mx([(Sx('i'), Mx([(Sx('p'), Ix('1'))])), (Sx('a'), Mx([(Sx('p'), Ix('1'))]))])
+    out.append(('inner-sharing', {'classes': B + [{'name': 'Ia', 'params': [('i', ('cls', 'In')), ('a', 'any')]},
+                                                  {'name': 'K', 'params': [('l', ('list', ('cls', 'Ia')))],
+                                                   'docs': [Mx([(Sx('l'), ('q', 'seq', [anyin, anyin]))])]}],
+                                  'root': ('cls', 'K')}))
     # seasoned classes whose savorize is not idempotent, inside collections
     out.append(('seasoned', {'classes': B + [{'name': 'K', 'params': [('v', 'int'), ('w', 'str', 'dw')],
                                              'hooks': {'savorize': [('scalar_to_attr', 'v')]},
